@@ -1872,7 +1872,7 @@ class AmountRequirementTemplate(OpenJDModel_v2023_09):
 
     @root_validator(pre=True)
     def _validate_has_one_optional(cls, values: dict[str, Any]) -> dict[str, Any]:
-        if not ("min" in values or "max" in values):
+        if values.get("min") is None and values.get("max") is None:
             raise ValueError("At least one of 'min' or 'max' must be defined.")
         return values
 
@@ -1989,7 +1989,7 @@ class AttributeRequirementTemplate(OpenJDModel_v2023_09):
 
     @root_validator(pre=True)
     def _validate_has_one_optional(cls, values: dict[str, Any]) -> dict[str, Any]:
-        if not ("anyOf" in values or "allOf" in values):
+        if values.get("anyOf") is None and values.get("allOf") is None:
             raise ValueError("At least one of 'anyOf' or 'allOf' must be defined.")
         return values
 
@@ -2031,7 +2031,7 @@ class HostRequirementsTemplate(OpenJDModel_v2023_09):
 
     @root_validator
     def _validate(cls, values: dict[str, Any]) -> dict[str, Any]:
-        if not ("amounts" in values or "attributes" in values):
+        if values.get("amounts") is None and values.get("attributes") is None:
             raise ValueError(
                 "Must define at least one of 'amounts' or 'attributes' if defining this property."
             )
